@@ -88,7 +88,8 @@ def wp_material(rng, ctr, units, lang_of):
     decls, per = [], {u: [] for u in units}
     if len(units) < 2:
         return decls, per
-    kinds = ["null", "uninit", "index", "unused", "used", "nested", "odr", "nested3"]
+    kinds = ["null", "uninit", "index", "unused", "used", "nested", "odr", "nested3", "null_var", "index_sz", "ptrarith", "nested4",
+             "samefile_used", "multi_site", "cpp_members"]
     for _ in range(rng.randint(1, 4)):
         k = rng.choice(kinds)
         n = ctr.next()
@@ -118,6 +119,41 @@ def wp_material(rng, ctr, units, lang_of):
             per[a].append("void wpd%d(int*p){*p=0;}" % n)
             per[b].append("void wpm%d(int*p){wpd%d(p);}" % (n, n))
             per[c if k == "nested3" else a].append("void wpt%d(void){wpm%d(0);}" % (n, n))
+        elif k == "null_var":
+            # null passed through a variable / a conditional expression with XML-special characters, as 2nd or 3rd argument
+            pos = rng.randint(1, 3)
+            params = ", ".join(("int*p" if i == pos else "int a%d" % i) for i in range(1, 4))
+            decls.append("void wpv%d(%s);" % (n, params))
+            per[a].append("void wpv%d(%s){*p=0;}" % (n, params))
+            args = ", ".join((rng.choice(["q", "(x<1&&x>-1)?0:0", "(int*)0"]) if i == pos else str(i)) for i in range(1, 4))
+            per[b].append("void wpcv%d(int x){int*q=0; (void)x; wpv%d(%s);}" % (n, n, args))
+        elif k == "index_sz":
+            sz, off = rng.choice([(3, 3), (5, 10), (2, 100), (8, 8), (4, 1000)])
+            decls.append("void wpx%d(int*a);" % n)
+            per[a].append("void wpx%d(int*a){a[%d]=0;}" % (n, off))
+            per[b].append("void wpcx%d(void){int arr[%d]; arr[0]=0; wpx%d(arr);}" % (n, sz, n))
+        elif k == "ptrarith":
+            decls.append("int wpa%d(const int*p);" % n)
+            per[a].append("int wpa%d(const int*p){const int*q=p+%d; return *q;}" % (n, rng.choice([7, 20, 300])))
+            per[b].append("int wpca%d(void){int arr[5]={0}; return wpa%d(arr);}" % (n, n))
+        elif k == "nested4":
+            decls.append("void wpd%d(int*p); void wpm%d(int*p); void wpn%d(int*p);" % (n, n, n))
+            per[a].append("void wpd%d(int*p){*p=0;}" % n)
+            per[b].append("void wpm%d(int*p){wpd%d(p);}" % (n, n))
+            per[c].append("void wpn%d(int*p){wpm%d(p);}" % (n, n))
+            per[a].append("void wpt%d(void){wpn%d(0);}" % (n, n))
+        elif k == "samefile_used":
+            per[a].append("int wps%d(int q){return q*%d;}\nint wpsc%d(void){return wps%d(2);}" % (n, n, n, n))
+        elif k == "multi_site":
+            decls.append("void wpd%d(int*p);" % n)
+            per[a].append("void wpd%d(int*p){*p=0;}" % n)
+            per[b].append("void wpc%d(void){wpd%d(0);}\nvoid wpe%d(int*ok){wpd%d(ok);}" % (n, n, n, n))
+            per[c].append("void wpf%d(void){wpd%d(0);}" % (n, n))
+        elif k == "cpp_members":
+            cpp = [u for u in units if lang_of[u] == "cpp"]
+            if cpp:
+                x = rng.choice(cpp)
+                per[x].append("}\nnamespace ns%d { class W%d { public: int used%d(int q){return q;} int unusedm%d(){return 1;} static int st%d(){return 2;} }; template<class T> T tpl%d(T v){return v;} int call%d(){ W%d w; return w.used%d(1)+tpl%d<int>(3); } }\nextern \"C\" {" % (n, n, n, n, n, n, n, n, n, n))
         elif k == "odr":
             cpp = [u for u in units if lang_of[u] == "cpp"]
             if len(cpp) >= 2:
@@ -149,6 +185,16 @@ def gen_project(rng, n_units=None, wp=True, inline=0.25, headers=True, weird_nam
         elif rng.chance(same_basename) and units:
             name = units[0].split("/")[-1]
             lang = langs[units[0]]
+            # Two units with one basename, but neither path a suffix of the other: suffix-related names additionally hit known
+            # finding K10 (inline suppressions of 'x.c' match 'dir/x.c' in single-job runs), which is pinned by a directed replay.
+            if "/" not in units[0] or not units[0].startswith("dupB/"):
+                old0 = units[0]
+                units[0] = "dupB/" + name
+                used.discard(old0); used.add(units[0])
+                langs[units[0]] = langs.pop(old0)
+            p = "dupA%d/%s" % (len(units), name)
+            used.add(p); units.append(p); langs[p] = lang
+            continue
         else:
             name = "u%d%s" % (i, ext)
         d = rng.choice(dirs) if (rng.chance(0.3) or name in [u.split("/")[-1] for u in units]) else ""
